@@ -16,7 +16,7 @@ use crate::{
 use pyo3::prelude::*;
 use socket2::{Domain, Protocol, Socket, Type};
 use std::net::SocketAddr;
-use std::time::Duration;
+use std::time::{Duration, Instant};
 
 pub(crate) trait SnmpSocket
 where
@@ -127,6 +127,30 @@ where
         T: PyOp<'a, V>,
         V: 'a,
     {
+        // The socket's read timeout applies to every single recv.
+        // Keep one deadline for the whole call, otherwise each
+        // skipped datagram restarts the clock.
+        let timeout = self.get_io().read_timeout().unwrap_or(None);
+        let mut shortened = false;
+        let r = self._recv_until::<T, V>(iter, timeout, &mut shortened);
+        if shortened {
+            // Restore configured timeout for the next call
+            let _ = self.get_io().set_read_timeout(timeout);
+        }
+        r
+    }
+
+    fn _recv_until<'a, T, V>(
+        &mut self,
+        iter: Option<&mut GetIter>,
+        timeout: Option<Duration>,
+        shortened: &mut bool,
+    ) -> PyResult<PyObject>
+    where
+        T: PyOp<'a, V>,
+        V: 'a,
+    {
+        let started = Instant::now();
         // Get buffer from pool
         let mut h = get_buffer_pool().acquire();
         let buf = h.as_mut();
@@ -145,6 +169,18 @@ where
                 }
                 None => {
                     buf.reset();
+                    if let Some(t) = timeout {
+                        // Wait only for the rest of the timeout
+                        match t.checked_sub(started.elapsed()) {
+                            Some(left) if left >= Duration::from_micros(1) => {
+                                self.get_io()
+                                    .set_read_timeout(Some(left))
+                                    .map_err(|e| SnmpError::SocketError(e.to_string()))?;
+                                *shortened = true;
+                            }
+                            _ => return Err(SnmpError::WouldBlock.into()),
+                        }
+                    }
                     continue;
                 }
             }
